@@ -1,5 +1,5 @@
 import CalicoVerif.Proofs.C13
-import CalicoVerif.Gen.C13
+import CalicoVerif.Gen.C13Thm
 /-!
 C13 — Go and kernel-program views of shared BPF data structures agree.
 
